@@ -95,9 +95,15 @@ def coq_assumptions(props_v):
                 axioms.append(mm.group(1))
     return True, o, closed, sorted(set(axioms))
 
-def hygiene():
+def hygiene(dirs=None):
+    """forbidden constructs in the development; dirs = theory sub-directories the property depends on"""
     bad = []
-    for p in glob.glob(os.path.join(COQ, "**", "*.v"), recursive=True):
+    files = glob.glob(os.path.join(COQ, "**", "*.v"), recursive=True)
+    if dirs is not None:
+        keep = set(["Base", "Gen"] + list(dirs))
+        files = [f for f in files if os.path.relpath(f, os.path.join(COQ, "theories")).split(os.sep)[0] in keep
+                 or os.path.relpath(f, COQ).startswith("extract")]
+    for p in files:
         for i, line in enumerate(open(p, errors="replace"), 1):
             code = re.sub(r"\(\*.*?\*\)", "", line)
             if FORBIDDEN.search(code):
@@ -252,7 +258,7 @@ def check(pid, tier, seed, replay=None):
         bad_ax = [a for a in axioms if a.split(".")[-1] not in ALLOWED_AXIOMS and a not in ALLOWED_AXIOMS]
         if bad_ax:
             problems.append(("proof", "theorems depend on undeclared axioms: " + ", ".join(bad_ax)))
-    hy = hygiene()
+    hy = hygiene([pid] + list(getattr(prop, "DEPS", [])))
     if hy:
         problems.append(("proof", "forbidden construct in the development:\n" + "\n".join(hy[:20])))
 
